@@ -236,10 +236,11 @@ class STVConfig:
 
 
 class Step:
-    __slots__ = ("kind", "elected", "eliminated", "succs", "tie", "resolution_ok")
+    __slots__ = ("kind", "elected", "eliminated", "succs", "tie", "resolution_ok", "reason")
 
     def __init__(self, kind, elected=frozenset(), eliminated=None, succs=(), tie=None,
-                 resolution_ok=None):
+                 resolution_ok=None, reason=None):
+        self.reason = reason
         self.kind = kind  # 'elect' | 'default' | 'elim' | NEEDS_TB | OUT_OF_DOMAIN
         self.elected = frozenset(elected)
         self.eliminated = eliminated
@@ -300,14 +301,14 @@ def legal_steps(state, cfg):
     t = tallies(B, rem)
     thr = cfg.thr
     if thr <= 0:
-        return [Step(OUT_OF_DOMAIN)]
+        return [Step(OUT_OF_DOMAIN, reason="threshold_zero")]
     above = [c for c in rem if t[c] >= thr]
     seats_left = cfg.m - n_el
     steps = []
     if above:
         if cfg.simultaneous:
             if len(above) > seats_left:
-                return [Step(OUT_OF_DOMAIN)]
+                return [Step(OUT_OF_DOMAIN, reason="more_at_quota_than_seats")]
             winner_sets = [(frozenset(above), None, None)]
         else:
             top = max(t[c] for c in above)
@@ -340,7 +341,7 @@ def legal_steps(state, cfg):
                     break
                 opts_per_w.append(o)
             if bad:
-                return [Step(OUT_OF_DOMAIN)]
+                return [Step(OUT_OF_DOMAIN, reason="non_integer_weight_random_transfer")]
             succs = []
             for combo in itertools.product(*opts_per_w):
                 Bn = dict(rest)
